@@ -329,8 +329,9 @@ def rule_lookup(ctx):
         f = fx.fn(key)
         bad = []
         n = 0
-        for ln in range(0, 4):
-            for combo in itertools.product(itertools.product(("k", "j"), ("Prd", "Cns")), repeat=ln):
+        names = ("k", "j", "i") if ctx.tier == "thorough" else ("k", "j")
+        for ln in range(0, 5 if ctx.tier == "thorough" else 4):
+            for combo in itertools.product(itertools.product(names, ("Prd", "Cns")), repeat=ln):
                 n += 1
                 bs = [binding(i, nm, chi) for i, (nm, chi) in enumerate(combo)]
                 tc = Adt(F + "context::TypingContext", "TypingContext", {"span": Sym("ctxspan"), "bindings": Vec(bs)})
